@@ -1,6 +1,7 @@
 package chain
 
 import (
+	"encoding/json"
 	"fmt"
 	"strings"
 	"time"
@@ -11,6 +12,7 @@ import (
 	dbm "github.com/tendermint/tm-db"
 
 	stypes "github.com/pokt-network/posmint/store/types"
+	sdk "github.com/pokt-network/posmint/types"
 	authTypes "github.com/pokt-network/posmint/x/auth/types"
 	govTypes "github.com/pokt-network/posmint/x/gov/types"
 	posTypes "github.com/pokt-network/posmint/x/pos/types"
@@ -98,6 +100,70 @@ func (f *Fam) monExport(fail func(string, string, string)) {
 		o.state = a.Snap().String()
 		return
 	}
+	// C09 and the records themselves: the pos part of the export - the validators an import accepts (no unstaked
+	// records, no jailed staked validator, nobody below the default minimum) - imported into a fresh instance with an
+	// empty bank (which is what lets unstaking validators through: the pool is then built from the records): every
+	// record arrives as it left, a jailed validator still jailed
+	func() {
+		defer func() {
+			if e := recover(); e != nil {
+				f.extra["c09:pos-import-refused"]++
+			}
+		}()
+		gen := f.app.MM.ExportGenesis(f.app.Ctx())
+		var pg posTypes.GenesisState
+		posTypes.ModuleCdc.MustUnmarshalJSON(gen[posTypes.ModuleName], &pg)
+		real := pg.Params
+		pg.Params = posTypes.DefaultParams()
+		pg.Params.StakeDenom = real.StakeDenom
+		kept := map[string]bool{}
+		var vals []posTypes.Validator
+		for _, v := range pg.Validators {
+			if v.IsUnstaked() || (v.Jailed && v.IsStaked()) || v.StakedTokens.LTE(sdk.NewInt(posTypes.DefaultMinStake)) {
+				continue
+			}
+			vals = append(vals, v)
+			kept[hx(v.Address)] = true
+		}
+		if len(vals) == 0 {
+			return
+		}
+		pg.Validators = vals
+		var prev []posTypes.PrevStatePowerMapping
+		for _, m := range pg.PrevStateValidatorPowers {
+			if kept[hx(m.Address)] {
+				prev = append(prev, m)
+			}
+		}
+		pg.PrevStateValidatorPowers = prev
+		a := NewApp(dbm.NewMemDB(), "tcp://127.0.0.1:1", stypes.PruneNothing)
+		a.Genesis = map[string]json.RawMessage{
+			authTypes.ModuleName: a.Cdc.MustMarshalJSON(authTypes.DefaultGenesisState()),
+			posTypes.ModuleName:  posTypes.ModuleCdc.MustMarshalJSON(pg),
+			govTypes.ModuleName:  gen[govTypes.ModuleName],
+		}
+		a.InitChain(abci.RequestInitChain{ChainId: ChainID, Time: time.Unix(0, 0).UTC(),
+			ConsensusParams: &abci.ConsensusParams{Validator: &abci.ValidatorParams{PubKeyTypes: []string{tmtypes.ABCIPubKeyTypeEd25519}}}})
+		got := a.Snap().Vals
+		f.extra["c09:pos-import-checked"]++
+		for addr, v := range f.app.Snap().Vals {
+			if !kept[addr] {
+				continue
+			}
+			if v.Jailed {
+				f.extra["c09:pos-import-of-a-jailed-validator"]++
+			}
+			w, ok := got[addr]
+			switch {
+			case !ok:
+				fail("export-import", "C09:validator-lost-on-import", fmt.Sprintf("validator %s of the exported state is missing after the import", addr))
+			case v.Jailed && !w.Jailed:
+				fail("export-import", "C09:unjailed-by-export-import", fmt.Sprintf("validator %s is jailed in the exported state and not jailed after the import (status %d, no unjail request)", addr, w.Status))
+			case v.Jailed != w.Jailed || v.Status != w.Status || !v.Tokens.Equal(w.Tokens) || v.Unstake != w.Unstake:
+				fail("export-import", "C09:validator-changed-by-export-import", fmt.Sprintf("validator %s: exported %+v, imported %+v", addr, v, w))
+			}
+		}
+	}()
 	x := run(stypes.PruneNothing)
 	y := run(stypes.PruneSyncable)
 	f.extra["c01:export-import-checked"]++
